@@ -1,5 +1,6 @@
 // C01 — encode/decode round trip (model-free oracle: the library is compared with itself).
 #include "gen.hpp"
+#include <sys/wait.h>
 using namespace vf;
 
 static const lib::Registry* REG;
@@ -10,8 +11,43 @@ static void setup() {
     REG = &lib::Registry::get();
 }
 
+// Cold start: a wallet is restored from its phrase by a process that has done nothing else with the library yet.
+// A child is forked BEFORE this process makes any checksum-related call; the parent then creates and encodes seeds and
+// the child - whose first such call is the decode - must get the same seeds back.  (Only meaningful as the first case
+// of a process: the worker runs it first, and replays / confirmations run it in a fresh process.)
+static bool g_library_used = false;
+static std::string coldstart(const Case& c) {
+    if (g_library_used) return "";
+    int to[2], from[2]; if (pipe(to) || pipe(from)) return ""; fflush(stdout); fflush(stderr);
+    pid_t ch = fork(); if (ch < 0) return "";
+    if (ch == 0) { // child: decode what the parent sends, answer with status + image per phrase
+        close(to[1]); close(from[0]); W().in_child = true; polyseed_enable_features(7);
+        for (;;) { std::string req; if (!recv_blob(to[0], req)) _exit(0); Case q = Case::parse(req); const lib::LangEntry* le = REG->by_name(q.get("lang")); std::string ph = q.bytes("phrase"); unsigned coin = (unsigned)q.u("coin");
+            lib::Image ix{}, ia{}; int sx = le ? lib::decode_x(ph, coin, le->lang, &ix) : -1; const polyseed_lang* lo = nullptr; int sa = lib::decode_auto(ph, coin, &lo, &ia);
+            Case a; a.set("sx", (uint64_t)sx); a.set("sa", (uint64_t)sa); a.set("ix", hex(ix.data(), 32)); a.set("ia", hex(ia.data(), 32)); a.set("lo", lo && REG->by_ptr(lo) ? REG->by_ptr(lo)->name_en : ""); if (!send_blob(from[1], a.str())) _exit(0); }
+    }
+    close(to[0]); close(from[1]); g_library_used = true; deps::Kit& k = deps::kit(0); std::string err; SplitMix sm(c.u("salt") + 1);
+    for (size_t li = 0; li < REG->size() && err.empty(); li++) {
+        std::vector<uint8_t> sec(19); for (auto& b : sec) b = (uint8_t)sm.next(); unsigned coin = sm.below(2048), uf = sm.below(8), enc = sm.below(2); k.reset_all();
+        model::Seed want = g::to_seed(sec, (int)sm.below(1024), uf | (enc << 4)); std::string e2; lib::SeedPtr s(g::build_by_create(want, 7, 0, &e2)); if (!s.p) { err = "cannot create seed: " + e2; break; }
+        const lib::LangEntry& le = REG->at(li); std::string ph = lib::encode(s, le.lang, coin); lib::Image img = lib::store(s);
+        Case q; q.set("lang", le.name_en); q.set("phrase", hex(ph)); q.set("coin", coin); std::string ans;
+        if (!send_blob(to[1], q.str()) || !recv_blob(from[0], ans)) { err = "the freshly started decoding process died while decoding a phrase of " + le.name_en; break; }
+        Case a = Case::parse(ans);
+        if (a.u("sx") != 0) err = "a process whose first use of the library is decoding rejects a valid " + le.name_en + " phrase with " + model::status_name((int)a.u("sx")) + " (the process that encoded it decodes it fine)";
+        else if (a.get("ix") != hex(img.data(), 32)) err = "a freshly started process decodes the phrase to a different seed";
+        else if (a.u("sa") != 0 && a.u("sa") != (uint64_t)model::MULT_LANG) err = std::string("a freshly started process: decode (auto) returns ") + model::status_name((int)a.u("sa"));
+        else if (a.u("sa") == 0 && (a.get("ia") != hex(img.data(), 32) || a.get("lo") != le.name_en)) err = "a freshly started process: decode (auto) yields another seed or language";
+    }
+    close(to[1]); close(from[0]); int st = 0; waitpid(ch, &st, 0);
+    if (err.empty()) { W().ev.eval(); W().ev.count("cold-start(decode is the first checksum-related call of a process)"); W().ev.nt(c); W().ev.sample("cold-start", c); }
+    return err;
+}
+
 // case fields: secret(hex19) birthday ufeat enc mask coin lang path kcoin ksize randtop
 static std::string oracle(const Case& c) {
+    if (c.get("kind") == "coldstart") return coldstart(c);
+    g_library_used = true;
     deps::Kit& k = deps::kit(0); k.reset_all();
     const lib::LangEntry* le = REG->by_name(c.get("lang"));
     if (!le) return ""; // language not registered on this tree: C07's business
@@ -97,6 +133,7 @@ static Case make_case(const std::vector<uint8_t>& sec, int bd, unsigned mask, un
 static void run() {
     setup();
     Args& a = W().args;
+    { Case c; c.set("kind", "coldstart"); c.set("salt", a.seed * 100 + (uint64_t)a.worker); set_current(c); std::string m = oracle(c); if (!m.empty() && enum_fail(c, m)) return; }
     // 1. uniform generator
     rc_run("c01-uniform", a.n(16000, 320000), 100, [&]() {
         auto sec = *g::secret19(); int bd = *g::birthday(); unsigned mask = *in_range<unsigned>(0, 8), uf = *in_range<unsigned>(0, 8), enc = *in_range<unsigned>(0, 2);
